@@ -6,12 +6,14 @@ no proofs), so it builds as a native executable.
 import Lean.Data.Json
 import ThaiLintModel.C01.Drv
 import ThaiLintModel.C14.Drv
+import ThaiLintModel.C15.Drv
 open Lean
 
 def dispatch (j : Json) : Json :=
   match (j.getObjValAs? String "prop").toOption.getD "" with
   | "C01" => ThaiLintModel.C01.handle j
   | "C14" => ThaiLintModel.C14.handle j
+  | "C15" => ThaiLintModel.C15.handle j
   | p => Json.mkObj [("error", s!"unknown prop {p}")]
 
 partial def loop (h : IO.FS.Stream) (out : IO.FS.Stream) : IO Unit := do
